@@ -81,7 +81,9 @@ class Group:
 
     def base_pipes(self):
         """pipe() calls made up front: the stage pipes, then the two capture pipes"""
-        return max(0, len(self.stages) - 1) + (2 if self.capture else 0)
+        # (a single builtin runs inside the shell and fills the result directly: no capture pipes)
+        in_process = len(self.stages) == 1 and getattr(self.stages[0], "in_process", False)
+        return max(0, len(self.stages) - 1) + (2 if self.capture and not in_process else 0)
 
     def complete(self):
         if self.pipe_failed:
